@@ -430,22 +430,37 @@ func (s *State) sliceElems(sl SliceV) Tuple {
 	return arr[sl.off : sl.off+sl.len]
 }
 
-// checkGuard implements the lock-discipline assertion of C15(a): a registered guarded variable
-// may only be read with its mutex held (any mode) and written with it held exclusively.
-func (s *State) checkGuard(p Ptr, how string) {
+// checkGuard implements the lock-discipline assertion of C15(a): a registered guarded variable or
+// object may only be read with its mutex held (any mode) and written with it held exclusively; a
+// frozen object (a published, immutable slice backing array) may not be written at all.
+func (s *State) checkGuard(p Ptr, how string) { s.checkGuardID(p.id, how) }
+
+func (s *State) checkGuardID(id int, how string) {
 	if len(s.ghost) == 0 {
 		return
 	}
-	g, ok := s.ghost[fmt.Sprintf("guard/%d", p.id)]
+	if fz, ok := s.ghost[fmt.Sprintf("frozen/%d", id)]; ok && how == "write" {
+		s.job.violation(s, "immutability: write to "+fz.(string)+" after it was published to lock-free readers", where(s), nil)
+		return
+	}
+	g, ok := s.ghost[fmt.Sprintf("guard/%d", id)]
 	if !ok {
 		return
 	}
 	gi := g.(Tuple)
 	mk := gi[0].(string)
-	w, _ := s.ghost["wheld/"+mk].(*Term)
-	r, _ := s.ghost["rheld/"+mk].(*Term)
-	okHeld := (w != nil && w.val > 0) || (how == "read" && r != nil && r.val > 0)
-	if !okHeld {
+	held := false
+	if mp, isPlain := gi[2].(Ptr); isPlain && gi[3].(*Term).val == 0 {
+		// sync.Mutex: held iff its state word is non-zero
+		if st, ok := getPath(s.cell(mp.id), append(append([]int(nil), mp.path...), 0)).(*Term); ok {
+			held = !(st.isConst() && st.val == 0)
+		}
+	} else {
+		w, _ := s.ghost["wheld/"+mk].(*Term)
+		r, _ := s.ghost["rheld/"+mk].(*Term)
+		held = (w != nil && w.val > 0) || (how == "read" && r != nil && r.val > 0)
+	}
+	if !held {
 		s.job.violation(s, fmt.Sprintf("lock discipline: %s of %s without holding its mutex", how, gi[1].(string)), where(s), nil)
 	}
 }
